@@ -105,7 +105,7 @@ func (ep *Endpoint) StartWriter(mode IOMode) {
 					return
 				}
 				r := res.(ioRes)
-				s.L.Logf("ret  %s Write -> %d %v", ep.Name, r.n, r.err)
+				ep.W.retLog()("ret  %s Write -> %d %v", ep.Name, r.n, r.err)
 				if r.err != nil {
 					ep.Out.Offered = ep.Out.Written
 					if r.n != 0 {
@@ -182,7 +182,7 @@ func (ep *Endpoint) StartReader(mode IOMode) {
 					return
 				}
 				r := res.(ioRes)
-				s.L.Logf("ret  %s Read -> %d %v", ep.Name, r.n, r.err)
+				ep.W.retLog()("ret  %s Read -> %d %v", ep.Name, r.n, r.err)
 				if r.err != nil {
 					if r.n != 0 {
 						s.Fail("C01", "stream", "read-error-with-bytes", "%s: Read returned n=%d together with error %v", ep.Name, r.n, r.err)
